@@ -17,7 +17,7 @@
 (*     the real code is compared with (MC_Config prints them per           *)
 (*     enumerated case, Trace_Config recomputes them per recorded event).  *)
 (*                                                                         *)
-(*  2. the start-up SEQUENCE as the programs perform it (defaults, overlay  *)
+(*  2. the start-up SEQUENCE as the programs perform it (defaults, overlay *)
 (*     of the file, patch with the command line, verification), with the   *)
 (*     representation choices of the code (port 0 = "not set", switches    *)
 (*     or-ed, one-shot switches assigned).  TLC checks that the sequence   *)
